@@ -61,6 +61,10 @@ def _strategy_class(ops, k, impl_line):
 
 def signature(ops, k, key, impl_line, spec_line):
     if key == "alone":
+        # `X`: the two runs differ in a way the known finding (account events dropped after Shutdown) does not
+        # explain - different market view, or account-event sequences that are not prefixes of one another
+        if impl_line.split()[-1:] == ["X"]:
+            return "clause=alone/unexplained"
         return "clause=alone/strategy=" + _strategy_class(ops, k, impl_line if impl_line != "<missing>" else spec_line)
     if key in ("seen", "inst"):
         return "clause=consumes_all/" + key
